@@ -80,6 +80,9 @@ func (c *evalOrderChecker) hasPtrRecv(fn *ast.Ident) bool {
 	if !ok {
 		return false
 	}
+	if sig.Recv() == nil {
+		return false // A function-valued field, not a method
+	}
 	return typep.IsPointer(sig.Recv().Type())
 }
 
